@@ -1,6 +1,6 @@
 HOOK_COMMITS = []
 ENGINES = [
-    {"name": "explore", "path": "vf/core/explore.py", "serves_properties": ["C01", "C03", "C08", "C09", "C11", "C13", "C15", "C17"], "kind_free_text": "explicit-state BFS with state merging over the real objects; bounded product enumeration; deviation-bounded stateless DFS"},
+    {"name": "explore", "path": "vf/core/explore.py", "serves_properties": ["C01", "C03", "C08", "C09", "C11", "C13", "C14", "C15", "C16", "C17"], "kind_free_text": "explicit-state BFS with state merging over the real objects; bounded product enumeration; deviation-bounded stateless DFS"},
     {"name": "vloop", "path": "vf/core/vloop.py", "serves_properties": ["C10", "C19"], "kind_free_text": "virtual asyncio event loop stepped by hand: ready-queue steps, environment events and timers are explicit choices explored exhaustively by explore.dfs"},
 ]
 NOT_APPLICABLE = {}
@@ -70,5 +70,11 @@ CHECKS = {
         technique="exhaustive event enumeration against a spec-derived EventSource parser; every producer/ping-timer interleaving of the ASGI event-stream response on a virtual asyncio loop",
         text="Every data string up to length 3 (thorough 4) over 13 line-ish characters x every subset of {event, id, retry} x {utf-8, latin-1} serialised by the library and parsed back by an event-stream parser written from the WHATWG specification; sequences of <=3 events through both SendEventResponse classes, on ASGI under every schedule of producer steps vs <=2 ping timers: one block per event, same fields, data split at CR/LF/CRLF only, pings invisible, order kept.",
         note="WSGI ping interleavings belong to the thread engine (C06); trailing-terminator ambiguity accepted both ways; empty events excluded",
+    ),
+    "C14": dict(
+        engine="explore", level="model_checking", design_ref="DESIGN.md §3 C14",
+        technique="exhaustive enumeration of modification/request histories on a virtualised file clock against version bookkeeping, one long-lived app instance per history",
+        text="Every history up to depth 3 (thorough 4) over 7 modifications (rewrite same/other size, touch; +0/+1/+3600 s) x 'run the request battery here or not'; the battery issues a plain GET and 8 validator forms (ETag, Last-Modified, both, list, weak, weak in list with and without space, *) for the validators of every version recorded so far, on Files and Pages, WSGI and ASGI, each app instance living through the whole history. 304 only for the unchanged version (and empty), 200 with new content and a new ETag after a change, own ETag always revalidates.",
+        note="os.stat wrapped for the harness tree (mtime = ctime = virtual time); a same-second change is not judged for a request carrying only the date; depth bound",
     ),
 }
